@@ -42,31 +42,47 @@ fn pristine() -> &'static Schema {
     P.get_or_init(Schema::new)
 }
 
-/// the built-in definitions of `sch` are exactly those of `Schema::new()`, in the same order, before
-/// every other definition
-fn builtins_pristine(sch: &Schema) -> bool {
+/// The built-in definitions of `sch` are those of `Schema::new()`, in the same order and before every other
+/// definition, except that some built-in types may be absent (validation prunes unused built-in scalars).
+/// Returns the names of the absent ones.
+fn builtins_pristine(sch: &Schema) -> Option<Vec<String>> {
     let p = pristine();
     let nd = p.directive_definitions.len();
-    let nt = p.types.len();
-    sch.directive_definitions.len() >= nd
-        && sch.types.len() >= nt
+    let dirs_ok = sch.directive_definitions.len() >= nd
         && sch
             .directive_definitions
             .values()
             .zip(p.directive_definitions.values())
             .all(|(a, b)| a.is_built_in() && a == b)
-        && sch.directive_definitions.values().skip(nd).all(|d| !d.is_built_in())
-        && sch.types.values().zip(p.types.values()).all(|(a, b)| a.is_built_in() && a == b)
-        && sch.types.values().skip(nt).all(|t| !t.is_built_in())
+        && sch.directive_definitions.values().skip(nd).all(|d| !d.is_built_in());
+    if !dirs_ok {
+        return None;
+    }
+    let mut removed = vec![];
+    let mut it = sch.types.values().peekable();
+    for b in p.types.values() {
+        match it.peek() {
+            Some(a) if a.is_built_in() && *a == b => {
+                it.next();
+            }
+            _ => removed.push(b.name().to_string()),
+        }
+    }
+    if it.any(|t| t.is_built_in()) {
+        return None;
+    }
+    Some(removed)
 }
 
 /// `P <dump of the user's definitions>` when the built-in part is pristine (the reader adds it back),
-/// else `F <full dump>`
+/// `P-Name1-Name2 <dump>` when it is pristine except for those absent built-in types, else `F <full dump>`
 pub fn transport(sch: &Schema) -> String {
-    if builtins_pristine(sch) {
-        format!("P {}", crate::schemadump::schema(sch, false))
-    } else {
-        format!("F {}", crate::schemadump::schema(sch, true))
+    match builtins_pristine(sch) {
+        Some(removed) => {
+            let mark = removed.iter().fold("P".to_string(), |m, n| m + "-" + n);
+            format!("{mark} {}", crate::schemadump::schema(sch, false))
+        }
+        None => format!("F {}", crate::schemadump::schema(sch, true)),
     }
 }
 
